@@ -18,6 +18,9 @@ CLAIMS = {
  "C18": dict(cat="model_checking", tech="TLA+ spec (Kv.tla gap-cursor actions CurOpen/CurOp/CurClose/RCursor) as oracle: exhaustive enumeration of cursor sessions (content x bound x entry point x operation sequence) executed on the real table and validated by TLC trace validation, plus random long sessions",
    text="every session of up to 2 (thorough: 3) cursor operations from every content over 3-4 keys, every bound and both entry points is run on the real code and judged by TLC against the sorted-map cursor of Kv.tla, including the table read back after close/drop; random histories add long insert runs in both directions (internal batching), big values and all table types.",
    note="needs the experimental_cursor feature build (harness/target-cursor); storage errors inside a session not injected", ref="DESIGN.md 4/C18"),
+ "C16": dict(cat="model_checking", tech="TLA+ spec Shared.tla (threads sharing one write transaction: set_dirty / savepoint registration / allocation / freed-page merge as critical sections) checked by TLC incl. two seeded-bad variants; real multi-threaded sections and forced schedules (pause points) recorded and validated by TLC trace validation against Kv.tla + PagerInv.tla",
+   text="design: all interleavings of the critical sections for 2-3 workers and a savepoint thread satisfy NoSharedPage/Accounting/TrackingOk/Eligibility. code: random histories with multi-threaded sections (real threads, plus the savepoint/first-open race forced through pause points) are linearized and judged by TLC: every call result, committed contents, savepoint restores and page accounting after every transaction.",
+   note="thread interleavings inside the allocator/cache are sampled by real threads, only the savepoint race is forced", ref="DESIGN.md 4/C16"),
  "C13": dict(cat="fault_enumeration", tech="TLA+ oracle (Kv.tla Compact + CrashAtomic) with TLC trace validation of compaction-heavy histories and crash enumeration of every backend operation issued during compaction",
    text="contents unchanged, refusals as documented, file never larger, bounded syncs, and all crash points inside compaction recover to the unchanged contents.",
    note="pass bound is a function of the file size (8 * (pages + 8) syncs)", ref="DESIGN.md 4/C13"),
